@@ -6,6 +6,8 @@ tree.  Here: (1) the real parser must return the expected AST (structure identic
 and every literal's Python value must equal the canonical spelling's; (2) every backend must translate the
 re-laid-out text and the canonical text to the same result (see backends.equivalent()).
 """
+import json
+
 import project
 import tlc
 
@@ -78,24 +80,38 @@ def run(ctx):
                 "constructs) x 42 layouts (7 whitespace runs incl. tab/newline/CRLF/mixed x optional-whitespace on/off "
                 "x lower/UPPER/Capitalised keywords); non-trivial = distinct text different from its canonical text")
     ctx.trusted = ["spec/Lex.tla (self-checked by SpecReadsLayout)", "harness/project.py"]
-    res = tlc.run("MC_C19", constants={"MaxOps": 1 if ctx.tier == "quick" else 2},
-                  keep_lines=lambda r: r.get("k") == "case", timeout=7000, heap="12g")
-    ctx.add_tlc(res)
-    if res.violation:
-        ctx.violation({"kind": "model", "inv": res.violation}, {"tlc": res.raw_tail[-2000:]})
+    # quick: <= 1 connective exhaustively, backends on every 7th layout.  thorough: the same exhaustively with the
+    # backends on every layout, plus TLC-simulated deeper filters (<= 3 connectives; exhaustive would be ~10^8 cases)
+    runs = [("exh", 1)] if ctx.tier == "quick" else [("exh", 1), ("sim", 3)]
     cache = {}
     be = load_backends()
     if be is not None:
         be = be.Backends(ctx)
-    # backend equivalence is expensive: run it on a deterministic subsample of the layouts per canonical text
-    for i, r in enumerate(res.records):
-        use_be = be if (be is not None and (ctx.tier == "thorough" or i % 7 == 0)) else None
-        check_case(ctx, r, cache, use_be)
+    for mode, mo in runs:
+        if mode == "exh":
+            res = tlc.run("MC_C19", constants={"MaxOps": mo}, keep_lines=lambda r: r.get("k") == "case", timeout=7000, heap="12g")
+        else:
+            res = tlc.run("MC_C19", constants={"MaxOps": mo}, simulate=max(1, 40000 // 16), depth=12, seed=ctx.seed + 19,
+                          keep_lines=lambda r: r.get("k") == "case", timeout=7000, heap="12g", check_count=False)
+        ctx.add_tlc(res)
+        if res.violation:
+            ctx.violation({"kind": "model", "inv": res.violation}, {"tlc": res.raw_tail[-2000:]})
+        seen = set()
+        # backend equivalence is expensive: run it on a deterministic subsample of the layouts per canonical text
+        for i, r in enumerate(res.records):
+            if mode == "sim":
+                k = json.dumps([r.get("text"), r.get("lay")], sort_keys=True)
+                if k in seen:
+                    continue
+                seen.add(k)
+            every = 7 if ctx.tier == "quick" else (1 if mode == "exh" else 3)
+            use_be = be if (be is not None and i % every == 0) else None
+            check_case(ctx, r, cache, use_be)
     if be is not None:
         for name, c, s, sql1, sql2, v, meta in be.finish():
             key, r = meta
             ctx.violation(dict(key, what="backend-differs", backend=name, verdict=v), {"text": s, "canon": c, "sql_canon": sql1, "sql": sql2, "case": r})
-    ctx.exhaustive = True
+    ctx.exhaustive = ctx.tier == "quick"
 
 
 def replay(ctx, rep):
